@@ -1,3 +1,5 @@
 import PxProofs.C16
 import PxProofs.C20
 import PxProofs.C18
+import PxProofs.C13
+import PxProofs.C19
